@@ -2,7 +2,7 @@
 import re
 
 from engine import rule, AnchorLost
-from model import Super, PathSens, fn_of, trace, strace, is_place, site, const_value, carriers, switches_on_carriers
+from model import enum_edge, Super, PathSens, fn_of, trace, strace, is_place, site, const_value, carriers, switches_on_carriers
 import common
 import deny
 import tables
@@ -402,6 +402,10 @@ def r05_1(ctx):
             only_toml = b.id not in reach
             ctx.ob(key + ":toml-only", only_toml, site(b, bb), "reached only through the TOML entry point (TOML must buffer)" if only_toml else "a streaming path reads the whole input before translating (unbounded memory, no streaming)")
     ctx.ob("slurp-sites", n >= 2, "lib", f"{n} slurping call site(s) classified")
+    # the CLI hands its inputs to the library as they are (mapping or reader): it never reads one up itself
+    for entry, b, bb, t in deny.hits(ctx.bin.bodies, "slurp"):
+        ctx.ob(f"cli:{entry}:{b.name}", False, site(b, bb), f"the CLI reads a whole input into memory ({fn_of(t)['def']}) before translating: no streaming for that input")
+    ctx.ob("cli-does-not-slurp", True, "bin", f"{len(ctx.bin.bodies)} bin bodies scanned", trivial=True)
     deny.control_obligations(ctx, "slurp")
 
 
@@ -525,6 +529,55 @@ def r10_1(ctx):
     for a in ("json", "msgpack"):
         ok = ts.before(a, "yaml")
         ctx.ob(f"{a}-before-yaml", ok, where, f"{a} trial precedes the YAML trial (trial order: {ts.order})" if ok else (f"YAML is tried before {a}: xt's own {a} output would be claimed as YAML" if a == "json" else f"YAML is tried before {a}"))
+
+
+@rule("R10.4", 2, "the TOML trial's size cap applies to unbuffered reader input only: in-memory input of any size is parsed", ["C10"])
+def r10_4(ctx):
+    lib = ctx.lib
+    trial = common.trial_functions(ctx.facts)["toml"]
+    sup = Super(lib, trial, depth=3)
+    ps = PathSens(sup)
+    # the input enum of the trial and its reader variant (the one that does not hold a byte slice)
+    ref_adt = None
+    for path_, a in lib.adts.items():
+        if a["crate"] == "xt" and a["kind"] == "enum" and path_.split("<")[0] in trial.local_ty(1) and len(a["variants"]) == 2:
+            ref_adt = a
+    ctx.need(ref_adt, f"input enum of the TOML trial not found in ADT facts ({trial.local_ty(1)})")
+    readers = [v_["idx"] for v_ in ref_adt["variants"] if not any("[u8]" in f_["ty"] for f_ in v_["fields"])]
+    ctx.need(len(readers) == 1, "reader variant of the trial's input enum not identified")
+    ridx = readers[0]
+    # cap = the constant handed to the prefix accessor
+    caps = []
+    for nn, bx, t in sup.calls():
+        f = fn_of(t) or {}
+        cb = lib.by_id.get(f.get("resolved") or f.get("def"))
+        if cb and cb.raw.get("ret_ty", "").startswith("std::result::Result<&[u8], std::io::Error>") and len(t["args"]) == 2:
+            tr = strace(sup, nn, t["args"][1])
+            v = const_value(t["args"][1]) if t["args"][1].get("k") == "const" else (tr.origin[1].get("v") if tr.origin and tr.origin[0] == "const" else None)
+            if isinstance(v, int):
+                caps.append(v)
+    ctx.need(caps, "prefix accessor call with a constant size not found in the TOML trial")
+    # reader edges of switches on the input enum
+    redges = []
+    for sn in sorted(sup.nodes(), key=str):
+        sb = sup.body_of(sn)
+        t = sb.blocks[sn[1]]["term"]
+        if t["k"] != "switch":
+            continue
+        for s_ in sb.blocks[sn[1]]["stmts"]:
+            if s_["k"] == "assign" and s_["rv"]["k"] == "discr" and ref_adt["path"].split("<")[0] in s_["rv"]["p"]["ty"]:
+                e = enum_edge(sb, sn[1], ridx)
+                if e:
+                    redges.append((sn, e[1], (sn[0], e[2])))
+    n = 0
+    for cn in sorted(sup.nodes(), key=str):
+        cbody = sup.body_of(cn)
+        for s_ in cbody.blocks[cn[1]]["stmts"]:
+            if s_["k"] == "assign" and s_["rv"]["k"] == "binop" and s_["rv"]["op"] in ("Ge", "Gt", "Lt", "Le") and (const_value(s_["rv"]["b"]) in caps or const_value(s_["rv"]["a"]) in caps):
+                n += 1
+                ok = any(ps.edge_dominates(e[0], e[1], e[2], cn) for e in redges)
+                ctx.ob(f"cap-test-under-reader-arm:{n}", ok, sup.site(cn), "the size cap is tested only for reader input" if ok else "the size cap is also applied to in-memory input: a large TOML document (xt's own output) is no longer recognised")
+    ctx.ob("cap-tests-found", n >= 1, site(trial), f"{n} comparison(s) with the cap constant {sorted(set(caps))}")
 
 
 @rule("R10.2", 8, "collection-marker tables agree: MessagePack trial accepts exactly rmp's array/map markers; YAML trial accepts exactly sequence/mapping roots", ["C10"])
